@@ -119,7 +119,7 @@ def do_op(ctx, op, role, node, radio, clock, x, lvl, step, n):
     raise AssertionError(op)
 
 
-def h_history(ctx, role, lvl, ops, n, ack_arrives, link="per-packet"):
+def h_history(ctx, role, lvl, ops, n, ack_arrives, link="per-packet", prep=()):
     clock = fresh_env(ctx, tick_ns=5_000_000)
     clock.max_looks = 20000
     radio, node, x = build_node(ctx, clock, role, lvl)
@@ -138,6 +138,18 @@ def h_history(ctx, role, lvl, ops, n, ack_arrives, link="per-packet"):
             radio.inject_rx(1, [a & 0xFF, a >> 8, a & 0xFF, a >> 8, 1, 0, 193, 0])
             base["done"] = True
     clock.on_look = on_look
+    # what the application did to the node beforehand (not network calls themselves: nothing is judged right after them)
+    for pr in prep:
+        if pr == "power_off":  # the application put the radio to sleep
+            node.power = False
+        elif pr == "listen_off":  # ... or into TX mode
+            node.listen = False
+        elif pr == "route_timeout":  # boundary and small values of the time-outs (0 = do not wait at all)
+            node.route_timeout = ctx.int("route_timeout", 0, 12)
+        elif pr == "tx_timeout":
+            node.tx_timeout = ctx.int("tx_timeout", 0, 12)
+        else:
+            raise AssertionError(pr)
     p0 = None  # pipe-0 level chosen with multicast_level (persists until the node gets a new address)
     for step, op in enumerate(ops):
         base["looks"] = clock.looks
@@ -189,6 +201,12 @@ def jobs(tier):
                         if not (o == "write_desc" and l == 3)]):
         out.append(Job("single-call-through-outages", h_history, dict(role="net", lvl=lvl, ops=[op], n=n, ack_arrives=False, link="outage"),
                        cost=40, shards=4))
+    for pr, lvl, op, n, ack in ([(pr, 1, op, 0, False) for pr in ("power_off", "listen_off") for op in
+                                 ("write_self", "write_child", "write_parent", "multicast", "multicast_level", "node_address")] +
+                                [(pr, lvl, op, n, ack) for pr in ("route_timeout", "tx_timeout") for lvl, op, n in ((1, "write_other", 0), (2, "write_desc", 25), (2, "write_parent", 0))
+                                 for ack in (False, True)]):
+        out.append(Job("single-call-after-the-application-changed-" + pr.replace("_", "-"), h_history,
+                       dict(role="net", lvl=lvl, ops=[op], n=n, ack_arrives=ack, prep=[pr]), cost=30, shards=(6 if op == "update" else 3)))
     pairs = [("multicast", "write_child"), ("node_address", "write_parent"), ("multicast_level", "multicast"),
              ("write_self", "multicast_level"), ("multicast_level", "write_parent"), ("write_parent", "node_address"),
              ("multicast_level", "node_address"), ("node_address", "multicast_level"), ("node_address", "node_address")]
@@ -207,7 +225,7 @@ META = {
                         "0, 1, 3; mesh nodes at levels 1, 2 (update, renew_address without responder, release_address, lookups, "
                         "check_connection, send, write, multicast); the master's update(); every address digit, type, content, "
                         "received frame (10 symbolic bytes) symbolic; one symbolic outcome per transmitted packet; a NETWORK_ACK / "
-                        "lookup answer injected at a symbolic clock look or never; 6 two-call histories",
+                        "lookup answer injected at a symbolic clock look or never; 9 two-call histories; calls made after the application itself powered the radio down / left it in TX mode (write, multicast, node_address, multicast_level) or set route_timeout / tx_timeout to a symbolic 0..12 ms",
                "thorough": "levels 0..4, 51 two-call histories of a network node"},
     "outside": ["histories deeper than 2", "renew_address() with responders (co-simulated in C17, which asserts the same "
                 "post-condition)", "timing jitter: the clock tick is a constant 5 ms"],
